@@ -7,7 +7,7 @@
 (* spelling of every generated tree back as that tree (completeness and        *)
 (* unambiguity on deep trees).  The walk is replayed into the real parser.     *)
 EXTENDS FGrammar, TLC
-CONSTANT Steps, MaxTokens
+CONSTANT Steps, MaxTokens, Mutate      \* Mutate: every other step is a one-token mutation of the current spelling
 
 Leaves == { <<"Id", "a">>, <<"Id", "b">>, <<"Id", "$x">>, <<"Lit", "Num", <<FALSE, <<1>>, 0>>>>, <<"Lit", "Num", <<FALSE, <<2,5>>, -1>>>>,
             <<"Lit", "Str", <<115>>>>, <<"Lit", "Kw", "true">>, <<"Lit", "Kw", "null">>, <<"Lit", "Kw", "this">>, <<"Arr", <<>>>> }
@@ -41,16 +41,37 @@ Grow(t) ==
     [] k = 15 -> MkArr(<<l1, t>>)
     [] k = 16 -> <<"Paren", t>>
 
-VARIABLES n, tree, s, e, pin, spans
-vars == <<n, tree, s, e, pin, spans>>
+\* near misses: one token deleted, inserted, replaced, or two neighbours swapped.  Whether the result is derivable is
+\* decided by the specification's parser; most are not, and the real parser must reject exactly those ("anything not
+\* derivable is rejected" at lengths the exhaustive models do not reach)
+T3m(k, v) == <<k, v, FALSE>>
+MutAlphabet ==
+  { T3m("Num", <<FALSE, <<1>>, 0>>), T3m("Id", "a"), T3m("typeof", "typeof"), T3m("Kw", "null") }
+  \cup { T3m(k, k) : k \in {"(", ")", "[", "]", ".", "!.", "...", ",", "?", ":", "=", "!", "!!", "-", "*", "<", "==", "&&", "??"} }
+  \cup { <<".", ".", TRUE>>, <<"(", "(", TRUE>>, <<"Id", "a", TRUE>> }
+MutateToks(t) ==
+  LET L == Len(t)  i == RandomElement(1..L)  x == RandomElement(MutAlphabet)  k == RandomElement(1..4) IN
+  CASE k = 1 -> SubSeq(t, 1, i - 1) \o SubSeq(t, i + 1, L)
+    [] k = 2 -> SubSeq(t, 1, i - 1) \o <<x>> \o SubSeq(t, i, L)
+    [] k = 3 -> SubSeq(t, 1, i - 1) \o <<x>> \o SubSeq(t, i + 1, L)
+    [] k = 4 -> IF i < L THEN SubSeq(t, 1, i - 1) \o <<t[i + 1], t[i]>> \o SubSeq(t, i + 2, L) ELSE t \o <<x>>
+
+VARIABLES n, tree, s, e, pin, spans, mut
+vars == <<n, tree, s, e, pin, spans, mut>>
 TokS(t) == [i \in 1..Len(Unparse(t)) |-> <<Unparse(t)[i][1], Unparse(t)[i][2], FALSE>>]
 Set(t) == /\ tree' = t /\ s' = TokS(t) /\ e' = ParseTokens(TokS(t)) /\ pin' = TRUE
-          /\ spans' = Spans(t, 1, <<>>)
+          /\ spans' = Spans(t, 1, <<>>) /\ mut' = 0
+\* two steps: RandomElement is drawn again at every evaluation, so the mutated spelling is first stored (unpinned
+\* state) and the specification's verdict on the stored spelling is added by the next step
+SetMut == /\ tree' = tree /\ s' = MutateToks(TokS(tree)) /\ e' = <<"REJECT">> /\ pin' = FALSE /\ spans' = <<>> /\ mut' = 1
+Judge == /\ tree' = tree /\ s' = s /\ e' = ParseTokens(s) /\ pin' = TRUE /\ spans' = <<>> /\ mut' = 2
 Init == n = 0 /\ tree = <<"Id", "a">> /\ s = TokS(<<"Id", "a">>) /\ e = ParseTokens(TokS(<<"Id", "a">>)) /\ pin = TRUE
-        /\ spans = Spans(<<"Id", "a">>, 1, <<>>)
+        /\ spans = Spans(<<"Id", "a">>, 1, <<>>) /\ mut = 0
 Next == /\ n < Steps /\ n' = n + 1
-        /\ IF NTok(tree) > MaxTokens THEN Set(RandomElement(Leaves)) ELSE Set(Grow(tree))
+        /\ IF Mutate /\ mut = 0 THEN SetMut
+           ELSE IF mut = 1 THEN Judge
+           ELSE IF NTok(tree) > MaxTokens THEN Set(RandomElement(Leaves)) ELSE Set(Grow(tree))
 Spec == Init /\ [][Next]_vars
 
-Complete == WF(tree) /\ e = <<"OK", tree>>
+Complete == mut # 0 \/ (WF(tree) /\ e = <<"OK", tree>>)
 =============================================================================
